@@ -1067,6 +1067,15 @@ def m_res_map_or(dex, fn, body, st, c, args, depth):
             yield s2, args[1], False
 
 
+def m_opt_zip(dex, fn, body, st, c, args, depth):
+    for n, s2, a in variant_fork(dex, st, args[0], *OPT):
+        if n == "None":
+            yield s2, NONE, False
+            continue
+        for n2, s3, b in variant_fork(dex, s2, args[1], *OPT):
+            yield s3, (some(("tup", (a, b))) if n2 == "Some" else NONE), False
+
+
 def m_opt_transpose(dex, fn, body, st, c, args, depth):
     """Option<Result<T, E>> -> Result<Option<T>, E>"""
     for n, s2, payload in variant_fork(dex, st, args[0], *OPT):
@@ -1390,6 +1399,7 @@ SUFFIX_MODELS = [
     ("iter::traits::iterator::Iterator::for_each", m_for_each),
     ("iter::traits::iterator::Iterator::find", m_find),
     ("option::Option::<core::result::Result<T, E>>::transpose", m_opt_transpose),
+    ("option::Option::<T>::zip", m_opt_zip),
     ("option::Option::<T>::map_or", m_opt_map_or),
     ("option::Option::<T>::map_or_else", m_opt_map_or_else),
     ("result::Result::<T, E>::map_or", m_res_map_or),
